@@ -264,6 +264,8 @@ def oracle(h, prop):
                         cause = "other"
                         if any(len(x) < len(qk) and qk.startswith(x) for x in ks):
                             cause = "query-key-extends-an-existing-key"
+                        elif any(len(x) > len(qk) and x.startswith(qk) for x in ks):
+                            cause = "existing-keys-extend-the-query-key"
                         elif any(0xff in x for x in ks + [qk]):
                             cause = "0xff-byte-in-store-or-key"
                         return i, "%s proof does not verify against the app hash of height %d" % ("absence" if exp is None else "existence", hgt), \
